@@ -77,11 +77,19 @@ def make_generated(rng, kind):
         out.append(dict(base, name="gen-haplotag-collide", subcommand="haplotag",
                         argv=["haplotag", "-o", "{out:tagged.bam}", "--output-haplotag-list", "{out:list.tsv}", "--reference", "{W}/ref.fa",
                               "--output-threads", "{othreads}", "{W}/phased.vcf.gz", "{W}/reads.bam"]))
+        # 2-4 regions, ascending and disjoint within a chromosome (haplotag rejects regions that make the fetched VCF records unordered)
         regs = []
-        for _ in range(rng.choice([2, 3, 4])):
-            c = rng.choice(w["chroms"])
-            a = rng.randrange(1, len(c["seq"]) - 100)
-            regs += ["--regions", rng.choice(["%s:%d-%d" % (c["name"], a, a + rng.randrange(50, 400)), "%s:%d" % (c["name"], a), c["name"]])]
+        for c in w["chroms"]:
+            L = len(c["seq"])
+            cuts = sorted(rng.sample(range(1, L - 1), 4))
+            nreg = rng.choice([1, 2, 2])
+            spans = [(cuts[0], cuts[1]), (cuts[2], cuts[3])][:nreg]
+            for j, (a, b) in enumerate(spans):
+                last = j == len(spans) - 1
+                regs += ["--regions", "%s:%d" % (c["name"], a) if last and rng.random() < 0.3 else "%s:%d-%d" % (c["name"], a, b)]
+        if len(regs) < 4:
+            c = w["chroms"][0]
+            regs = ["--regions", "%s:%d-%d" % (c["name"], 1, len(c["seq"]) // 3), "--regions", "%s:%d-%d" % (c["name"], len(c["seq"]) // 2, len(c["seq"]) - 1)]
         out.append(dict(base, name="gen-haplotag-regions", subcommand="haplotag",
                         argv=["haplotag", "-o", "{out:tagged.bam}", "--output-haplotag-list", "{out:list.tsv}", "--reference", "{W}/ref.fa",
                               "--output-threads", "{othreads}"] + regs + ["{W}/phased.vcf.gz", "{W}/reads.bam"]))
@@ -474,6 +482,7 @@ class NodeEngine(Engine):
                 stats.inc("subcommand_" + sc.get("subcommand", sc["argv"][0]))
                 if r0["status"]["exit"] != sc.get("expect_exit", 0):
                     stats.inc("reference_unexpected_exit")
+                    stats.inc("reference_unexpected_exit:%s:%s" % (sc["name"].split("@")[0], r0["status"]["exit"]))
                     if r0["status"]["exit"] == 2:
                         # argparse rejected the command line: the scenario itself is wrong
                         stats.inc("reference_usage_error")
